@@ -412,8 +412,20 @@ pub fn generate(level: usize) -> Vec<Scenario> {
             }),
             u(p(spec, f0, 0, None)),
             u(p(spec, f9, HUGE_ORDER, Some(0))),
+            // allocate and free again: a counter that a racing change overwrote overflows
+            seq2(TOp::Do(g(spec, 0, Some(0))), TOp::PutOwn { nth: 0, part: None, local: Some(0) }),
+            seq2(TOp::Do(g(spec, 0, None)), TOp::PutOwn { nth: 0, part: None, local: None }),
         ];
         out.extend(pairs("F7-change", &cfg, &setup, &alpha));
+        // the same on an untouched allocator (entirely free trees)
+        let alpha_fresh = vec![
+            a(ch(0, Some(0), None)),
+            a(ch(0, Some(2), None)),
+            seq2(TOp::Do(g(spec, 0, Some(0))), TOp::PutOwn { nth: 0, part: None, local: Some(0) }),
+            seq2(TOp::Do(g(spec, 0, None)), TOp::PutOwn { nth: 0, part: None, local: None }),
+            seq2(TOp::Do(g(spec, HUGE_ORDER, None)), TOp::PutOwn { nth: 0, part: None, local: None }),
+        ];
+        out.extend(pairs("F7-change-fresh", &cfg, &[], &alpha_fresh));
     }
     // Online of a fully allocated (not offline) tree racing a free into it
     if TREE_HUGE > 1 {
